@@ -1920,6 +1920,22 @@ impl ContextualHuffmanEncoder {
         let tree = &self.trees[tree_idx];
         let root = tree.root().ok_or_else(|| ZiporaError::invalid_data("Empty tree"))?;
 
+        // A single-symbol tree still codes its symbol (one bit, see from_frequencies):
+        // skip those bits, or the following symbols are read from the wrong position
+        if let HuffmanNode::Leaf { symbol, .. } = root {
+            let code_len = tree.get_code(*symbol).map_or(1, |code| code.len());
+            for _ in 0..code_len {
+                if reader.bit_count == 0 {
+                    reader.refill();
+                    if reader.bit_count == 0 {
+                        return Err(ZiporaError::invalid_data("Unexpected end of stream"));
+                    }
+                }
+                reader.consume(1);
+            }
+            return Ok(*symbol);
+        }
+
         let mut current = root;
 
         loop {
@@ -2127,6 +2143,24 @@ impl ContextualHuffmanDecoder {
     /// Decode next symbol using the original bit processing logic
     fn decode_next_symbol(&self, encoded_data: &[u8], byte_idx: &mut usize, bit_pos: &mut usize, tree: &HuffmanTree) -> Result<u8> {
         let root = tree.root().ok_or_else(|| ZiporaError::invalid_data("Empty tree"))?;
+
+        // A single-symbol tree still codes its symbol (one bit, see from_frequencies):
+        // skip those bits, or the following symbols are read from the wrong position
+        if let HuffmanNode::Leaf { symbol, .. } = root {
+            let code_len = tree.get_code(*symbol).map_or(1, |code| code.len());
+            for _ in 0..code_len {
+                if *byte_idx >= encoded_data.len() {
+                    return Err(ZiporaError::invalid_data("Incomplete symbol"));
+                }
+                *bit_pos += 1;
+                if *bit_pos == 8 {
+                    *bit_pos = 0;
+                    *byte_idx += 1;
+                }
+            }
+            return Ok(*symbol);
+        }
+
         let mut current_node = root;
 
         while *byte_idx < encoded_data.len() {
